@@ -67,6 +67,11 @@ Merge(o, p) == /\ FreeIds # {} /\ o # p
                /\ objs' = [objs EXCEPT ![NewId] = Obj(<<>>, fresh + 1, objs[o].n + objs[p].n)]
                /\ heap' = ExtendHeap(1) /\ fresh' = fresh + 1
                /\ Log(Ev("Merge", "derive", 0, <<o, p>>, <<NewId>>))
+\* trajectory.merge([o]): a list with a single trajectory still yields a new, independent object
+Merge1(o) == /\ FreeIds # {}
+             /\ objs' = [objs EXCEPT ![NewId] = Obj(<<>>, fresh + 1, objs[o].n)]
+             /\ heap' = ExtendHeap(1) /\ fresh' = fresh + 1
+             /\ Log(Ev("Merge", "derive", 0, <<o>>, <<NewId>>))
 \* transform / scale / align(ref): new matrices
 Rebind(o, name, args) == /\ LET k == objs[o].n IN
                               /\ objs' = [objs EXCEPT ![o] = Obj(FreshCells(k), 0, k)]
@@ -93,7 +98,7 @@ Computations == {"APE", "RPE", "Infos", "Pairs", "DataFrame", "Write", "Plot", "
 Next == /\ Len(h) < MaxDepth
         /\ \E o \in Live :
               \/ DeepCopy(o) \/ Split(o, "time") \/ Split(o, "distance") \/ Split(o, "speed")
-              \/ Reduce(o) \/ Project(o)
+              \/ Reduce(o) \/ Project(o) \/ Merge1(o)
               \/ Rebind(o, "Transform", <<>>) \/ Rebind(o, "Scale", <<>>)
               \/ \E p \in Live : \/ Associate(o, p) \/ Merge(o, p)
                                  \/ (o # p /\ Rebind(o, "Align", <<p>>))
